@@ -11,6 +11,7 @@ package main
 import (
 	"fmt"
 	"math/rand"
+	"regexp"
 	"strings"
 
 	"verifharness/shot"
@@ -53,6 +54,32 @@ func r6Overflow(conf string, m map[string]string, n int) string {
 		conf = strings.Replace(conf, once, fmt.Sprintf("rps: [{type: const, ops: %d, duration: %ds}]", ops, dur), 1)
 	}
 	return conf
+}
+
+var r6AutoTagRe = regexp.MustCompile(`auto-tag: \{enabled: (true|false), uri-elements: (\d+), no-tag-only: (true|false)\}`)
+
+// r6WrittenAutoTag rewrites the gun's `auto-tag` section so that only the keys named in keys are written (e enabled,
+// u uri-elements, n no-tag-only; "-": the section is left out): the others are left to the gun's DEFAULTS.
+func r6WrittenAutoTag(conf, keys string) string {
+	m := r6AutoTagRe.FindStringSubmatch(conf)
+	if m == nil {
+		return "pools: [] # no complete auto-tag section to thin out"
+	}
+	var kept []string
+	if strings.Contains(keys, "e") {
+		kept = append(kept, "enabled: "+m[1])
+	}
+	if strings.Contains(keys, "u") {
+		kept = append(kept, "uri-elements: "+m[2])
+	}
+	if strings.Contains(keys, "n") {
+		kept = append(kept, "no-tag-only: "+m[3])
+	}
+	repl := "auto-tag: {" + strings.Join(kept, ", ") + "}"
+	if len(kept) == 0 {
+		return strings.Replace(conf, ", "+m[0], "", 1)
+	}
+	return strings.Replace(conf, m[0], repl, 1)
 }
 
 // r6Slow: how late the slow requests are answered. coreutil.MaxOverdueDuration is 2 s; a pause never ends early, so every
@@ -132,6 +159,26 @@ func genRound6(r *rand.Rand, thorough bool) []string {
 		auto := r.Intn(2) == 0
 		out = append(out, fmt.Sprintf("k=http gun=%s tgt=%s auto=%d el=%d nto=%d %s reqs=%s", gun, tgt, b(auto), 1+r.Intn(2), b(r.Intn(2) == 0), extra,
 			strings.Join(reqs, ";")))
+	}
+	// OPTION DEFAULTS: the auto-tag section written only in part; the other keys are the gun's defaults (documented:
+	// uri-elements 2, no-tag-only true, disabled)
+	for c, keys := range []string{"e", "eu", "en", "un", "-", "e", "eu"}[:pick(5, 7)] {
+		gun := []string{"http", "connect", "http2", "http", "http"}[c%5]
+		tgt := "live"
+		if gun == "http2" {
+			tgt = "tls2"
+		}
+		var reqs []string
+		for i := 0; i < 6; i++ {
+			uri, path := randURI(r)
+			if i == 0 {
+				uri, path = "/my/very/deep/page?id=23&param=33", "/my/very/deep/page"
+			}
+			tag := []string{"", "T", "", "t1"}[i%4]
+			reqs = append(reqs, httpReqTok(tag, uri, path, []string{"s200.bx3", "s404", "s503.bx1"}[i%3]))
+		}
+		// the values of the keys that are NOT written differ from the defaults, so that a default taken from the input shows
+		out = append(out, httpCase(gun, tgt, true, []int{1, 3, 3, 1, 3, 3, 1}[c], c%2 == 0, "atd="+keys, reqs))
 	}
 	// the same slow targets with discard_overflow OFF (every request is fired, however late), and discard_overflow on
 	// with a target that keeps up (nothing is discarded)
